@@ -118,7 +118,7 @@ def main(argv=None):
             if v["check"] == "regress" or v["check"] in seen:
                 continue
             seen.add(v["check"])
-            p = core.write_replay(pid, v["check"], v["case"], v["msg"], v["sig"])
+            p = core.write_replay(pid, v["check"], v["case"], v["msg"], v["sig"], v.get("detail"))
             viol_out.append((os.path.relpath(p, core.VERIF_ROOT), v["msg"]))
 
         if hasattr(mod, "finish"):
